@@ -604,8 +604,14 @@ pub fn run_modes(
     let pre = RecState { map: Arc::new(b.pre.clone()), strict: case.strict, short: case.short, log: log.clone() };
     let empty = OverlayState { pre: pre.clone(), overlay: Arc::new(BTreeMap::new()) };
     let set = Arc::new(b.set.clone());
+    // This entry point gets closure providers that hand out a FRESH `Arc` per request (a
+    // store-backed provider); the two-pass entry point gets the maps of long-lived `Arc`s.
+    // Nothing may depend on the identity or lifetime of what a provider returns.
+    let (progs, preds) = (Arc::new(b.programs.clone()), Arc::new(b.get_pred.clone()));
+    let fresh_prog = move |ca: &ContentAddress| -> Arc<Program> { Arc::new(Program(progs[ca].0.clone())) };
+    let fresh_pred = move |pa: &PredicateAddress| -> Arc<Predicate> { Arc::new((*preds[pa]).clone()) };
     let r1 = crate::fw::catch(|| {
-        sol::check_set_predicates(&(pre.clone(), empty.clone()), set.clone(), b.get_pred.clone(), b.programs.clone(), cfg.clone(), RunMode::Outputs, &mut cache)
+        sol::check_set_predicates(&(pre.clone(), empty.clone()), set.clone(), fresh_pred.clone(), fresh_prog.clone(), cfg.clone(), RunMode::Outputs, &mut cache)
     });
     let log1 = std::mem::take(&mut *log.lock().unwrap());
     let pass1 = match r1 {
@@ -617,7 +623,7 @@ pub fn run_modes(
     if let Ok((_, data)) = &pass1 {
         let post = OverlayState { pre: pre.clone(), overlay: Arc::new(overlay_for_pass2(data)) };
         let r2 = crate::fw::catch(|| {
-            sol::check_set_predicates(&(pre.clone(), post), set.clone(), b.get_pred.clone(), b.programs.clone(), cfg.clone(), RunMode::Checks, &mut cache)
+            sol::check_set_predicates(&(pre.clone(), post), set.clone(), fresh_pred.clone(), fresh_prog.clone(), cfg.clone(), RunMode::Checks, &mut cache)
         });
         pass2 = Some(match r2 {
             Err((site, msg)) => Err(CkOut::Panic { site, msg }),
